@@ -24,7 +24,7 @@ PCirc(n) == {[cid |-> c, goal |-> circ'[n][c].goal, hops |-> HopPeers(circ'[n][c
 PRelay(n) == {[cid |-> c, to |-> relay'[n][c].to, next |-> relay'[n][c].next, dir |-> relay'[n][c].dir,
                early |-> relay'[n][c].early] : c \in DOMAIN relay'[n]}
 PExit(n) == {[cid |-> c, prev |-> exit'[n][c].prev, pk |-> exit'[n][c].pk, enabled |-> exit'[n][c].enabled,
-              open |-> exit'[n][c].open] : c \in DOMAIN exit'[n]}
+              open |-> exit'[n][c].open, queued |-> Len(exit'[n][c].q)] : c \in DOMAIN exit'[n]}
 PRetry(n) == {[cid |-> c, ident |-> retryC'[n][c].ident, tries |-> retryC'[n][c].tries, alts |-> retryC'[n][c].alts,
                kind |-> retryC'[n][c].kind] : c \in DOMAIN retryC'[n]}
 PCreate(n) == {[ident |-> i, to |-> createC'[n][i].to, from |-> createC'[n][i].from, peer |-> createC'[n][i].peer,
@@ -61,6 +61,7 @@ Step(e) ==
     [] e.a = "SendData"      -> SendData(e.o, e.cid, "outside")
     [] e.a = "RemoveCircuit" -> RemoveCircuit(e.o, e.cid, e.destroy)
     [] e.a = "ExitReturn"    -> ExitReturn(e.x, e.cid, e.p)
+    [] e.a = "TransportsReady" -> TransportsReady(e.n, e.cid)
     [] e.a = "Deliver"       -> \E d \in net : d.id = e.id /\ Deliver(d)
     [] e.a = "Lose"          -> \E d \in net : d.id = e.id /\ Lose(d)
     [] e.a = "Dup"           -> \E d \in net : d.id = e.id /\ Dup(d)
